@@ -1055,3 +1055,13 @@ Proof.
     destruct (apply_resp_spec e from req false a b n) as (L & Q & _ & _ & H). cbn zeta in *.
     rewrite G in H. destruct H as (WR & WC & F). auto 10.
 Qed.
+
+(* full statement that is NOT proved here (needs State-Machine Safety): an entry for which SUCCESS
+   was reported stays at its index, on every node that ever applies that index *)
+Definition C02_success_stable_full (valid : conf -> list event -> Prop) : Prop :=
+  forall c evs1 evs2 g1 g2 x n1 en y n2 en',
+    valid c (evs1 ++ evs2) ->
+    run_trace c ginit evs1 = Some g1 -> run_trace c g1 evs2 = Some g2 ->
+    aget x (nodes g1) = Some n1 -> In en (log n1) -> eidx en <= applied n1 ->
+    aget y (nodes g2) = Some n2 -> In en' (log n2) -> eidx en' = eidx en -> eidx en' <= applied n2 ->
+    entry_eqb en en' = true.
